@@ -33,6 +33,29 @@ def main(argv=None) -> int:
     report.assumptions = list(meta.get("assumptions", []))
     try:
         mod.run(report, tier)
+        from . import guards
+        from .rp2model import model
+
+        m = model()
+        try:
+            guards.check(m.prog, set(m.norm.touched) | set(report.functions))
+        except AnalysisError as exc:
+            if not report.findings:
+                raise
+            report.note(f"soundness guard: {exc}")  # a violation was already located: report it, with the caveat
+        if tier == "thorough":
+            from . import sensitivity
+
+            aud = sensitivity.audit(pid)
+            report.extra["sensitivity_audit"] = aud
+            if aud.get("available"):
+                print(
+                    f"  SENSITIVITY: {aud['fired']}/{aud['fire_expected']} single-edit variants of this property's anchors reported, "
+                    f"{aud['twins_silent']}/{aud['twins']} behaviour-preserving twins silent, {aud['unmodelled_withheld']}/{aud['unmodelled']} unmodelled constructs withheld, "
+                    f"{aud['skipped_anchor_absent']} skipped (anchor text absent from this tree)"
+                )
+                for pr in aud["problems"]:
+                    print(f"  SENSITIVITY-PROBLEM: {pr}")
         code = report.finish()
     except AnalysisError as exc:
         print(f"ANALYSIS-ERROR: {pid}: {exc}")
